@@ -127,19 +127,22 @@ def _fit_rules(ctx, A, cls, m, fi, r, params, cfg, is_subject):
     reads = [e for e in r.events if e.kind == "read" and e.data["obj"] is r.self_term and e.data["attr"] not in cfg
              and not e.data["attr"].startswith("__")]
     rep = set()
+    validates = [x for x in r.events if x.kind == "call" and x.data.get("callee") == "sklearn.utils.validation.validate_data"
+                 and x.data["args"] and x.data["args"][0] is r.self_term]
     for e in reads:
         a = e.data["attr"]
         if a in rep:
             continue
         rep.add(a)
-        val = mk("attr", r.self_term, a)
-        infl = [b for b in branches if any(x is val for x in subterms(b.data["cond"]))]
-        infl = [b for b in infl if not contains(b.data["cond"], lambda s: s.op == "attr" and s.args[1] == "warm_start")
-                and not any(contains(x, lambda s: s.op == "attr" and s.args[1] == "warm_start") for x in b.pc)]
-        if infl:
-            _note_or_ob(ctx, is_subject, "R19.3", e.func, e.node, False,
-                        f"{cname}.fit reads '{a}', which only an earlier fit can have set, and branches on it at "
-                        f"{infl[0].func.split(':')[1]}:{infl[0].line}", f"read of {a} before write in fit")
+        # attributes that sklearn's validate_data(self, ...) sets are written by a preceding validate call
+        if a in ("n_features_in_", "feature_names_in_") and any(dominates(v_, e) for v_ in validates):
+            continue
+        if any(contains(x, lambda s: s.op == "attr" and s.args[1] == "warm_start") for x in e.pc):
+            continue
+        _note_or_ob(ctx, is_subject, "R19.3", e.func, e.node, False,
+                    f"{cname}.fit reads '{a}' before any write in this fit: only an earlier fit can have set it, so the "
+                    "result of fit depends on the call history (e.g. records accumulate across fits)",
+                    f"read of {a} before write in fit")
     ctx.ob("R19.3", fi.fq, None, True, f"{cname}.fit: {len(tests)} existence tests and {len(reads)} reads of non-"
            "configuration state inspected", construct=f"{cname}.fit history scan", nontrivial=bool(tests or reads))
     # R19.6 un-copied fit of a constructor-parameter estimator
